@@ -64,8 +64,8 @@ func init() {
 func init() {
 	props["C08"] = propSpec{
 		level: "exploration",
-		rule: "seeded broker runs: back-end {channel, unlimited Queue, unlimited Deque, bounded Deque, bounded Queue, LIFO} x ParallelDispatch x WorkerPoolSize {0,1,2,4} x BufferSize {0,1,8} x 1-4 publishers x 1-400 messages (unique ids) x " +
-			"subscribers {static, late joiners, early leavers} with speed profiles x delay injected between pop and dispatch (wrapping distributor) x GOMAXPROCS; oracle: every configuration - received subset of published, no id twice; " +
+		rule: "seeded broker runs: back-end {channel, unlimited Queue, unlimited Deque, bounded Deque, bounded Queue, LIFO} x ParallelDispatch x WorkerPoolSize {0,1,2,4; 8/32/96 on channel and Queue back-ends} x BufferSize {0,1,8} x 1-4 publishers x 1-400 messages (unique ids) x " +
+			"subscribers {static, late joiners, early leavers, 1-3 churners that keep subscribing and unsubscribing fresh channels while the messages flow} with speed profiles x delay injected between pop and dispatch (wrapping distributor) x GOMAXPROCS; oracle: every configuration - received subset of published, no id twice; " +
 			"lossless configurations (BufferSize 0; channel / unlimited queue / unlimited deque) - every message whose Publish was called after a subscriber's Subscribe returned is received by it (decided at quiescence when missing); " +
 			"single dispatch worker - every subscriber preserves each publisher's order and all subscribers agree on one order. distinct_nontrivial = distinct configurations of runs with >= 2 subscribers, >= 2 publishers and >= 2 publisher interleavings in the witness order",
 		assumptions: append([]string{"early leavers are checked for the universal clauses only (DESIGN 7d)",
@@ -96,7 +96,7 @@ func init() {
 		level: "exploration",
 		rule: "Go race detector (-race build of the monitor) over a method-pair matrix: for each documented concurrency-safe type {pubsub.Queue, Deque (+ Distributors, iterators, blocking producers), Broker (channel/queue/deque), fun.WaitGroup, erc.Collector incl. inspecting the resolved error, " +
 			"adt.Map / Atomic / Synchronized / Once / Pool, synchronized dt.Set ordered and unordered, Lock/WithLock/Once/Limit wrappers of Worker/Operation/Producer/Processor/Handler/Future/Transform} every unordered pair of public methods (incl. a method with itself) is driven by 2-4 goroutines " +
-			"released from a barrier on one shared, pre-populated instance (300 calls each; thorough: 1500 calls x 4 repetitions, plus the same matrix built with go1.26.8); reports are read from the detector's log, deduplicated by frame pair, and count when both accesses are in module code " +
+			"released from a barrier on one shared, pre-populated instance (first-use / last-use: a fresh object per step - zero values and fresh wrappers first touched, fresh brokers with messages in flight ended in two ways - met by two goroutines) (300 calls each; thorough: 1500 calls x 4 repetitions, plus the same matrix built with go1.26.8); reports are read from the detector's log, deduplicated by frame pair, and count when both accesses are in module code " +
 			"(or in the monitor's lock-protected probe state). distinct_nontrivial = distinct method pairs for which at least one pair of call intervals (monotonic clock, per goroutine) was observed to overlap",
 		assumptions: append([]string{"decides only the accesses that the drivers actually overlapped; the static lock-set reading ('every path holds the mutex') is not decided",
 			"no shared atomic clock is used around the calls (it would add happens-before edges and hide races)"}, commonAssumptions...),
